@@ -272,6 +272,10 @@ func PlanMain(args []string) {
 			}
 			runPlan(rec, dir, fmt.Sprintf("dangling%d-%d", n, p), planCase{n: n, edges: es}, 1)
 			cases++
+			// the process that names the undefined dependency is disabled / foreground: still rejected
+			runPlan(rec, dir, fmt.Sprintf("dangling%d-%d-dis", n, p), planCase{n: n, edges: es, disabled: map[int]bool{p: true}}, 1)
+			runPlan(rec, dir, fmt.Sprintf("dangling%d-%d-fg", n, p), planCase{n: n, edges: es, foreground: map[int]bool{p: true}}, 1)
+			cases += 2
 		}
 	}
 	// (4) selection: acyclic graphs on 3..4 nodes x every non-empty requested subset x noDeps x markings
